@@ -21,7 +21,10 @@ Record ccfg := mkCfg {
   has_sync : bool; has_finalize : bool;
   known : list child_cfg;           (* discovery: every kind the dynamic client can resolve *)
   ssa : bool;                       (* server-side apply instead of dynamic apply *)
-  has_customize : bool
+  has_customize : bool;
+  field_paths : list (list string); (* revisionHistory.fieldPaths, default [["spec"]] *)
+  checks : list (string * list (string * option string * option string))
+                                    (* res key -> status checks (type, status, reason) *)
 }.
 
 Definition finalizer_name (c : ccfg) : string := ("metacontroller.io/compositecontroller-" ++ cc_name c)%string.
